@@ -166,3 +166,46 @@ def sany(module: Path) -> tuple[bool, str]:
         ("Semantic processing of module" in p.stdout and "*** Errors" not in p.stdout and "Fatal" not in p.stdout
          and "Parse Error" not in p.stdout and "Could not" not in p.stdout)
     return ok, p.stdout + p.stderr
+
+
+# ------------------------------------------------------------------------------------------------
+# spec -> code: behaviours generated by `tlc -simulate file=...`
+# ------------------------------------------------------------------------------------------------
+_RE_ACT_HDR = re.compile(r"^\\\* <(\w+)(?:\((.*)\))? line \d+", re.M)
+
+
+def parse_behaviour(text: str) -> list:
+    """One simulation trace file -> [(action name, [args], {var: value})] (first entry: the initial state)."""
+    out = []
+    blocks = re.split(r"^\\\* <", text, flags=re.M)[1:]
+    for b in blocks:
+        m = re.match(r"(\w+)(?:\((.*?)\))? line \d+", b)
+        name = m.group(1)
+        args = tlaval.parse("<<" + m.group(2) + ">>") if m.group(2) else []
+        body = b[b.index("==") + 2:]
+        body = body.split("\n\n\n")[0]
+        state = {}
+        parts = re.split(r"^/\\ (\w+) = ", body, flags=re.M)
+        for i in range(1, len(parts), 2):
+            state[parts[i]] = tlaval.parse(parts[i + 1].strip().rstrip("=").strip())
+        out.append((name, args, state))
+    return out
+
+
+def simulate(module: str, cfg: str, *, workdir: Path, num: int, depth: int, seed: int, env: dict | None = None,
+             timeout: int = 900) -> list:
+    """Run TLC in simulation mode and return the generated behaviours (each a list as in parse_behaviour)."""
+    d = workdir / f"sim_{Path(module).stem}_{seed}"
+    shutil.rmtree(d, ignore_errors=True)
+    d.mkdir(parents=True)
+    res = run(module, cfg, workdir=workdir, workers=1, env=env, simulate=f"file={d}/tr,num={num}", depth=depth, seed=seed,
+              timeout=timeout)
+    if not res.ok:
+        raise TLCFailure(f"simulation of {module} failed: {res.violated or res.error}\n{res.out[-1500:]}")
+    behs = []
+    for f in sorted(d.iterdir()):
+        t = f.read_text()
+        t = t[:t.rfind("====")] if "====" in t[-200:] else t
+        behs.append(parse_behaviour(t))
+    shutil.rmtree(d, ignore_errors=True)
+    return behs
